@@ -348,6 +348,10 @@ type dictOps struct {
 	get       func(h any, key []bool) (dict.Value, bool)
 	put       func(h any, key []bool, v dict.Value)
 	marshal   func(h any) (*tboc.Cell, error)
+	// reuse: build by Put, marshal, then look at the same dictionary again (entries, lookups, second marshal)
+	reuse func(keys [][]bool, vals []dict.Value) (entries []dict.Entry, got []dict.Value, found []bool, h1, h2 string, err error)
+	// decodeOver: decode cell a and then cell b into one and the same variable
+	decodeOver func(a, b *tboc.Cell) ([]dict.Entry, error)
 }
 
 func mkOps[K keyC, V any](kname string, va *valAd[V]) *dictOps {
@@ -404,6 +408,56 @@ func mkOps[K keyC, V any](kname string, va *valAd[V]) *dictOps {
 		marshal: func(h any) (*tboc.Cell, error) {
 			out := tboc.NewCell()
 			return out, tlb.Marshal(out, *h.(*tlb.HashmapE[K, V]))
+		},
+		reuse: func(keys [][]bool, vals []dict.Value) (entries []dict.Entry, got []dict.Value, found []bool, h1, h2 string, err error) {
+			var d tlb.HashmapE[K, V]
+			ks, vs := conv(keys, vals)
+			for i := range ks {
+				d.Put(ks[i], vs[i])
+			}
+			c1 := tboc.NewCell()
+			if err = tlb.Marshal(c1, d); err != nil {
+				return
+			}
+			items := d.Items()
+			ik, iv := make([]K, len(items)), make([]V, len(items))
+			for i, it := range items {
+				ik[i], iv[i] = it.Key, it.Value
+			}
+			entries = itemsOf(va, ik, iv)
+			for _, k := range ks {
+				v, ok := d.Get(k)
+				found = append(found, ok)
+				if ok {
+					got = append(got, va.abs(v))
+				} else {
+					got = append(got, dict.Value{})
+				}
+			}
+			c2 := tboc.NewCell()
+			if err = tlb.Marshal(c2, d); err != nil {
+				return
+			}
+			if h1, err = hashOf(c1); err != nil {
+				return
+			}
+			h2, err = hashOf(c2)
+			return
+		},
+		decodeOver: func(a, b *tboc.Cell) ([]dict.Entry, error) {
+			d := new(tlb.HashmapE[K, V])
+			if err := tlb.Unmarshal(a, d); err != nil {
+				return nil, err
+			}
+			if err := tlb.Unmarshal(b, d); err != nil {
+				return nil, err
+			}
+			items := d.Items()
+			ks, vs := make([]K, len(items)), make([]V, len(items))
+			for i, it := range items {
+				ks[i], vs[i] = it.Key, it.Value
+			}
+			return itemsOf(va, ks, vs), nil
 		},
 	}
 }
@@ -583,6 +637,69 @@ func runCase(o *dictOps, idx int, shape string) {
 		if d := diffEntries(kv, model); d != "" {
 			R.Violation(c.sig("decode-mismatch@Hashmap(own-encoding)"), c.wit(model, map[string]any{"diff": d}))
 			return
+		}
+	}
+
+	// ---- (vii) the dictionary is still itself after it has been marshalled: entries (as a mapping),
+	// lookups and a second marshal of the same object
+	if sz > 0 {
+		perm := r.Perm(sz)
+		keys, vals := make([][]bool, sz), make([]dict.Value, sz)
+		for i, j := range perm {
+			keys[i], vals[i] = dict.KeyBits(order[j]), model.m[order[j]]
+		}
+		var entries []dict.Entry
+		var got []dict.Value
+		var found []bool
+		var h1, h2 string
+		err, ok := guarded(c, model, "Put+Marshal+reuse", func() (e error) { entries, got, found, h1, h2, e = o.reuse(keys, vals); return })
+		if !ok {
+			return
+		}
+		R.Eval(prefixFP("vii", fp))
+		if err != nil {
+			R.Violation(c.sig("error@Marshal(second time)"), c.wit(model, map[string]any{"err": err.Error(), "insertion_order": permKeys(order, perm)}))
+			return
+		}
+		dict.SortEntries(entries)
+		if d := diffEntries(entries, model); d != "" {
+			R.Violation(c.sig("dictionary-changed-by-Marshal@Items"), c.wit(model, map[string]any{"diff": d, "insertion_order": permKeys(order, perm)}))
+			return
+		}
+		for i := range keys {
+			if !found[i] || !sameValue(got[i], vals[i]) {
+				R.Violation(c.sig("dictionary-changed-by-Marshal@Get"), c.wit(model, map[string]any{"key": rbits.FiftHex(keys[i]), "found": found[i], "got": showValue(got[i]), "want": showValue(vals[i]), "insertion_order": permKeys(order, perm)}))
+				return
+			}
+		}
+		if h1 != firstHash || h2 != firstHash {
+			R.Violation(c.sig("second-Marshal-differs"), c.wit(model, map[string]any{"first": mon.Hex([]byte(h1)), "second": mon.Hex([]byte(h2)), "insertion_order": permKeys(order, perm)}))
+			return
+		}
+		// ---- (viii) decoding into a variable that already holds another dictionary replaces it
+		half := sz / 2
+		ak, av := make([][]bool, 0, half+1), make([]dict.Value, 0, half+1)
+		for i := 0; i <= half && i < sz; i++ {
+			ak, av = append(ak, keys[i]), append(av, o.gen(r, maxVal))
+		}
+		var other *tboc.Cell
+		if err, ok := guarded(c, model, "Put+Marshal(other)", func() (e error) { other, e = o.buildPut(ak, av); return }); ok && err == nil {
+			first.ResetCounters()
+			var over []dict.Entry
+			err, ok := guarded(c, model, "Unmarshal(over another dictionary)", func() (e error) { over, e = o.decodeOver(other, first); return })
+			if !ok {
+				return
+			}
+			R.Eval(prefixFP("viii", fp))
+			if err != nil {
+				R.Violation(c.sig("error@Unmarshal(into used variable)"), c.wit(model, map[string]any{"err": err.Error()}))
+				return
+			}
+			if d := diffEntries(over, model); d != "" {
+				R.Violation(c.sig("decode-mismatch@into-used-variable"), c.wit(model, map[string]any{"diff": d, "note": "the variable held another dictionary before"}))
+				return
+			}
+			first.ResetCounters()
 		}
 	}
 
